@@ -96,32 +96,31 @@ Lemma load_enh_last dr dw es e : forall m,
                (match c_write (eu_acl e) with Some p => PPrefix p | None => dw end)).
 Proof. intros m. rewrite fold_left_app. cbn [fold_left]. unfold load_enh. apply lookup_put_same. Qed.
 
-(* ---- topic aliases cannot carry a publish past the ACL ---- *)
-Definition tbl_ok (allowed : N -> bool) (tbl : list (N * N)) : Prop := forall a t, alias_get a tbl = Some t -> allowed t = true.
-
+(* ---- topic aliases cannot carry a publish past the ACL: every publish is checked on the topic it resolves to ---- *)
 Lemma alias_pub_ok allowed tbl t a :
-  tbl_ok allowed tbl ->
-  tbl_ok allowed (fst (alias_pub allowed tbl t a)) /\
-  (forall tp, snd (alias_pub allowed tbl t a) = ARouted tp -> allowed tp = true).
+  forall tp, snd (alias_pub allowed tbl t a) = ARouted tp -> allowed tp = true.
 Proof.
-  intros HT. unfold alias_pub. destruct t as [tp|].
-  - destruct (allowed tp) eqn:Ha; cbn [fst snd].
-    + split.
-      * destruct (N.eqb a 0); [exact HT|]. intros a' t' H. cbn [alias_get] in H.
-        destruct (N.eqb a a'); [inversion H; subst; exact Ha | apply (HT a' t' H)].
-      * intros tp' H. inversion H; subst. exact Ha.
-    + split; [exact HT | intros tp' H; discriminate].
-  - destruct (alias_get a tbl) as [tp|] eqn:Hg; cbn [fst snd].
-    + split; [exact HT | intros tp' H; inversion H; subst; apply (HT a tp' Hg)].
-    + split; [exact HT | intros tp' H; discriminate].
+  intros tp. unfold alias_pub. destruct t as [tp0|]; cbn [snd].
+  - destruct (allowed tp0) eqn:Ha; intros H; [inversion H; subst; exact Ha | discriminate].
+  - destruct (alias_get a tbl) as [tp0|]; cbn [snd]; [|intros H; discriminate].
+    destruct (allowed tp0) eqn:Ha; intros H; [inversion H; subst; exact Ha | discriminate].
 Qed.
 
-Lemma alias_run_ok allowed ps : forall tbl, tbl_ok allowed tbl ->
-  forall tp, In (ARouted tp) (alias_run allowed tbl ps) -> allowed tp = true.
+Lemma alias_run_ok allowed ps : forall tbl tp, In (ARouted tp) (alias_run allowed tbl ps) -> allowed tp = true.
 Proof.
-  induction ps as [|[t a] ps IH]; intros tbl HT tp Hin; cbn [alias_run] in Hin; [destruct Hin|].
-  pose proof (alias_pub_ok allowed tbl t a HT) as [H1 H2].
-  destruct (alias_pub allowed tbl t a) as [tbl' v]. cbn [fst snd] in *.
+  induction ps as [|[t a] ps IH]; intros tbl tp Hin; cbn [alias_run] in Hin; [destruct Hin|].
+  pose proof (alias_pub_ok allowed tbl t a) as H2.
+  destruct (alias_pub allowed tbl t a) as [tbl' v]. cbn [snd] in *.
   destruct Hin as [Hv|Hin]; [subst v; apply H2; reflexivity|].
-  destruct v; [apply (IH tbl' H1 tp Hin) | apply (IH tbl' H1 tp Hin) | destruct Hin].
+  destruct v; [apply (IH tbl' tp Hin) | apply (IH tbl' tp Hin) | destruct Hin].
+Qed.
+
+(* ... and an alias names the topic of the LAST packet that carried it together with a topic, whether that packet's
+   message was authorised or refused: what follows under the alias alone is never routed anywhere else *)
+Lemma alias_last_bound allowed tbl tp a : a <> 0 ->
+  forall t', snd (alias_pub allowed (fst (alias_pub allowed tbl (Some tp) a)) None a) = ARouted t' -> t' = tp.
+Proof.
+  intros Ha t'. unfold alias_pub at 2. cbn [fst]. apply N.eqb_neq in Ha. rewrite Ha.
+  unfold alias_pub. cbn [alias_get]. rewrite N.eqb_refl. cbn [snd].
+  destruct (allowed tp); intros H; [inversion H; reflexivity | discriminate].
 Qed.
